@@ -595,8 +595,19 @@ func c03Gates(c *Ctx) {
 			bad := ""
 			k := 0
 			for _, ret := range returnsOf(f) {
-				if len(ret.Results) < 3 || !isNilConst(ret.Results[2]) {
+				if len(ret.Results) < 3 {
 					continue
+				}
+				if !isNilConst(ret.Results[2]) {
+					// `return b.helper(..)`: the helper's success paths are success paths of this function
+					ex, isEx := ret.Results[2].(*ssa.Extract)
+					if !isEx {
+						continue
+					}
+					call, isCall := ex.Tuple.(*ssa.Call)
+					if !isCall || call.Call.StaticCallee() == nil || pkgRelOf(call.Call.StaticCallee()) != "blockchain/statebackend" {
+						continue
+					}
 				}
 				k++
 				if ok, why := viewOrigin(ret.Results[0], 0); !ok {
